@@ -369,10 +369,15 @@ def crash_in_code_under_test(tb):
     # the remote traceback (if any) is the innermost one
     m = re.search(r'"""\n(Traceback.*?)"""', tb, re.S)
     text = m.group(1) if m else tb
-    frames = re.findall(r'File "([^"]+)", line (\d+)', text)
-    mine = [(f, ln) for f, ln in frames
+    frames = re.findall(r'File "([^"]+)", line (\d+), in [^\n]*\n\s*([^\n]*)',
+                        text)
+    mine = [(f, ln, code) for f, ln, code in frames
             if f.startswith(edir) or f.startswith(VERIF + os.sep)]
     if not mine or not mine[-1][0].startswith(edir):
+        return None
+    if mine[-1][2].lstrip().startswith("raise"):
+        # emg3d deliberately rejected the input: the harness fed something
+        # the implementation documents as invalid - that is a harness fault
         return None
     exc = [ln for ln in text.strip().splitlines() if ln and ln[0] != " "]
     return f"{os.path.relpath(mine[-1][0], edir)}:{mine[-1][1]} " \
